@@ -361,6 +361,7 @@ def minimise(prop, v):
     tries = [0]
 
     def fails(c):
+        core.reset_code_state()
         tries[0] += 1
         try:
             return any(f['oracle'] == oracle for f in evaluate(prop, c))
